@@ -49,6 +49,14 @@ def case_line(prefix, calls, modes=None):
     return " ".join(toks)
 
 
+def short_kinds(line):
+    """the same history with its short write reported as io.ErrShortWrite ("s<n>")"""
+    t = line.split()
+    if len(t) < 4 or not t[-1].lstrip("-").isdigit():
+        return None
+    return " ".join(t[:-1] + ["s" + t[-1]])
+
+
 def expand(prefix, chunks, shorts=True):
     """the all-ok history, and every history that ends in one short write"""
     yield [(c, None) for c in chunks]
@@ -219,6 +227,9 @@ def nontrivial(c):
 
 def run(res, tier, seed, proof):
     cases = gen(tier, seed)
+    # every third history that ends in a short write also with the failure reported as io.ErrShortWrite
+    extra = [short_kinds(c) for i, c in enumerate(cases) if i % 3 == 0 and c.startswith("indent")]
+    cases += [c for c in extra if c]
     go, ml, mism = lib.diff_cases(res, cases)
     nt = len({c for c in cases if nontrivial(c)})
     shorts = sum(1 for c in cases if c.startswith("indent") and c.split()[-1] not in ("ok", "N"))
